@@ -13,8 +13,10 @@ ASSUME = [
     "the dialer finishes before the third message travels: an alteration of message 3 must fail the listener only",
     "deadlocks caused by the MITM move are resolved by closing the in-memory pipe, never by a timer; the 300 s handshake "
     "timer never fires (a run in which it did is repeated, not judged)",
-    "dialed-peer expectations are exercised through two real Litep2p nodes over loopback TCP (30 s to get an event, "
-    "inconclusive runs are repeated, not judged)",
+    "dialed-peer expectations (right / other key, inline / SHA-256 multihash form) are exercised through two real Litep2p "
+    "nodes over loopback TCP, the comparison being done by negotiate_connection (30 s to get an event, inconclusive runs "
+    "are repeated, not judged); the websocket transport has the same comparison but is not compiled into the harness",
+    "a dialed peer id in SHA-256 form never equals the id an Ed25519 key proves (inline form), also for the same key: must fail",
     "small-order ed25519 keys (for which anybody can produce valid signatures) are out of scope",
 ]
 
@@ -71,7 +73,7 @@ def check(ctx):
     known = load_known(ctx.pid)
     need = [] if any(v["sig"] not in known for v in violations) else ["ok_pass", "ok_asR", "err_stolen", "err_sigByOther", "err_sigOverOtherStatic", "err_sigNoPrefix", "err_noSig", "err_noKey",
             "err_garbageSig", "err_unknownType", "err_corrupt", "err_substitute", "err_drop", "err_replay", "err_extend",
-            "err_truncadj", "err_truncraw", "ok_tcp_B", "err_tcp_C"]
+            "err_truncadj", "err_truncraw", "ok_tcp_B_inline", "err_tcp_C_inline", "err_tcp_B_sha256", "err_tcp_C_sha256", "ok_tcp_listener"]
     for k in need:
         if not outc.get(k):
             raise ToolError("coverage hole: no real run with outcome class %s" % k)
@@ -149,7 +151,8 @@ def selftest(ctx):
     ok &= corrupt(lambda e: e["outcome"] == "err" and e["sc"]["mitm"]["msg"] in (1, 2), lambda e: e.update(outcome="ok", peer="B" if e["role"] == "dialer" else "A"), "tampered handshake accepted")
     ok &= corrupt(lambda e: e["outcome"] == "ok" and e["peer"] == "B", lambda e: e.update(peer="R"), "wrong peer id reported")
     ok &= corrupt(lambda e: e["outcome"] == "ok" and e["sc"]["mitm"]["msg"] == 0 and e["sc"]["peer"] == "honest", lambda e: e.update(outcome="err", peer=""), "honest handshake failed")
-    ok &= corrupt(lambda e: e["sc"]["dialed"] == "C", lambda e: e.update(outcome="ok", peer="B"), "dialed-peer mismatch accepted")
+    ok &= corrupt(lambda e: e["sc"]["dialed"] == "C" and e["sc"]["dialedForm"] == "inline", lambda e: e.update(outcome="ok", peer="B"), "dialed-peer mismatch accepted")
+    ok &= corrupt(lambda e: e["sc"]["dialedForm"] == "sha256" and e["role"] == "dialer", lambda e: e.update(outcome="ok", peer="B"), "SHA-256-form dialed id accepted")
     for fault in ("accept_all", "wrong_peer", "reject_all"):
         harness(ctx, "noisehs", ["--behaviours", ctx.path("behs.jsonl"), "--seed", ctx.seed, "--out", ctx.path("f.ndjson"), "--tcp-reps", 0],
                 env={"VERIF_FAULT": fault})
